@@ -721,7 +721,7 @@ func (s *Server) handleConnectionLoop(conn net.Conn, procHandler *NFSProcedureHa
 
 	var connRateLimiter *RateLimiter
 	if s.handler != nil {
-		connRateLimiter = s.handler.rateLimiter
+		connRateLimiter = s.handler.currentRateLimiter()
 	}
 	defer func() {
 		if connRateLimiter != nil {
@@ -775,7 +775,11 @@ func (s *Server) handleConnectionLoop(conn net.Conn, procHandler *NFSProcedureHa
 				}
 			}
 
-			// Check rate limit
+			// Check rate limit (with the limiter in force now: a policy update
+			// may have installed or removed one since the connection was opened)
+			if s.handler != nil {
+				connRateLimiter = s.handler.currentRateLimiter()
+			}
 			if connRateLimiter != nil && s.handler != nil && s.handler.policy.Load().EnableRateLimiting {
 				if !connRateLimiter.AllowRequest(authCtx.ClientIP, connID) {
 					reply := &RPCReply{
